@@ -109,6 +109,23 @@ def main(tier):
                     drv.cmd("O " + zone)
                     continue
                 ev.append({"e": evn, "t": ds(t), "off": zc_clamp(int(r_["r"]) - t), "T": iso(t)})
+            # the other direction (--from-zone TAI|GPS): clock readings from 3 s before to 45 s after every inserted second and seeded ones
+            xs = set()
+            for d, off in ld[1:]:
+                for k in range(-3, 46):
+                    xs.add(d * 86400 + k + (0 if zone == "TAI" else -19))
+            for _ in range(200 if quick else 20000):
+                xs.add(rng.randrange(lo + 100, 776000 * 86400))
+            xl = sorted(x for x in xs if x >= lo + 100)
+            xshuf = list(xl)
+            rng.shuffle(xshuf)
+            for x in xl + xshuf[: len(xshuf) // 2]:
+                r_ = drv.cmd("U %d" % x)
+                if r_ in ("hang", "crash"):
+                    rep.disagree("%s reading to UTC %s" % (zone, r_), {"x": x})
+                    drv.cmd("O " + zone)
+                    continue
+                ev.append({"e": evn + "Inv", "x": ds(x), "u": ds(int(r_["u"])), "X": iso(x)})
         drv.close()
         # ---- B: real-second differences and additions through the tools
         ddiff, dadd = b.tool("ddiff"), b.tool("dadd")
